@@ -23,10 +23,15 @@ TRUSTED = ["Lean 4 kernel; axioms per theorem under coverage.axioms",
            "ideal cryptography in the model (honest partials verify, Recover succeeds on >= thr distinct valid partials); the real runs use real BLS",
            "harness engine 'net': real beacon.Handler/SyncManager/chainStore/ticker over an in-memory net.ProtocolClient with clockwork fake clocks advanced "
            "in lock-step; bounded polling waits; a failing script is retried twice and only a violation that reproduces every time is reported"]
-ASSUMPTIONS = ["fair round: in every sub-round every up node's timer event happens once and every message between connected up nodes is delivered",
-               "the healthy set U is closed (every up node connected to a member is a member), pairwise connected, |U| >= thr",
-               "c05_step_progress/c05_catchup assume no partial for a round above head+1 is in flight towards or cached by U (Quiet); "
-               "reachable whenever no node is ahead of U (c05_quiet_of_heads)"]
+ASSUMPTIONS = ["fair round: in every sub-round every running node's timer event happens once, syncs pull, every message between connected running nodes "
+               "is delivered, syncs pull again (partial synchrony after heal); clocks advance in lock-step",
+               "the healthy set U is closed (every running node with a link to or from a member is a member), pairwise connected, |U| >= thr",
+               "c05_step_progress / c05_rejoin assume Quiet: no partial for a round above head+1 is in flight towards or cached by U; "
+               "c05_quiet_of_heads proves it for every state reachable from the initial state in which no node is ahead of U",
+               "c05_catchup starts from a levelled state (all heads of U equal, nothing in flight, no catch-up goroutine asleep) whose partial caches are empty or hold "
+               "only partials of the stalled round without any member being one own partial short of the threshold (otherwise that member aggregates at its own tick, "
+               "the others may sync from it instead of aggregating, and the chain restarts only at the next tick: the model shows this schedule, the bound then holds "
+               "with one extra period)"]
 
 SCHEMES_QUICK = ["pedersen-bls-chained", "bls-unchained-g1-rfc9380"]
 SCHEMES_ALL = ["pedersen-bls-chained", "pedersen-bls-unchained", "bls-unchained-on-g1", "bls-unchained-g1-rfc9380", "bls-bn254-unchained-on-g1"]
